@@ -19,6 +19,9 @@ pub struct V {
     pub n: usize,
 }
 
+/// modes >= TWO_HOT encode "fields a and b at their maximum, all others zero" as TWO_HOT + a * 1000 + b
+pub const TWO_HOT: usize = 1_000_000;
+
 impl V {
     pub fn new(mode: usize) -> V {
         V { mode, n: 0 }
@@ -42,6 +45,14 @@ impl V {
                     ((i as u64 * 37 + 11) & max).max(if max > 1 { 1 } else { 0 })
                 } else {
                     r
+                }
+            }
+            m if m >= TWO_HOT => {
+                let (a, b) = ((m - TWO_HOT) / 1000, (m - TWO_HOT) % 1000);
+                if i == a || i == b {
+                    max
+                } else {
+                    0
                 }
             }
             m => {
@@ -82,6 +93,7 @@ impl V {
             0 => vec![0; len],
             1 => vec![0xff; len],
             2 => (0..len).map(|j| (i * 41 + j * 7 + 1) as u8).collect(),
+            m if m >= TWO_HOT => vec![if i == (m - TWO_HOT) / 1000 || i == (m - TWO_HOT) % 1000 { 0xff } else { 0 }; len],
             m => vec![if m - 3 == i { 0xff } else { 0 }; len],
         }
     }
@@ -93,6 +105,13 @@ impl V {
             0 => String::new(),
             1 => "\u{7f}\u{7f}\u{7f}".into(),
             2 => format!("s{}\u{e9}\u{65e5}", i),
+            m if m >= TWO_HOT => {
+                if i == (m - TWO_HOT) / 1000 || i == (m - TWO_HOT) % 1000 {
+                    "y".repeat(70)
+                } else {
+                    String::new()
+                }
+            }
             m => {
                 if m - 3 == i {
                     "x".repeat(300)
@@ -1066,6 +1085,10 @@ pub fn g_meta_unknown(nkids: usize, v: &mut V) -> (MetaBox, Node) {
 // ---------------------------------------------------------------------------------------------
 // enumeration of all shapes x value modes
 
+thread_local! {
+    static TWO_HOT_ON: std::cell::Cell<bool> = const { std::cell::Cell::new(false) };
+}
+
 fn modes<F: FnMut(&mut V)>(mut f: F) {
     // count the fields with a fingerprint pass, then run zero / ones / fingerprint / every one-hot
     let mut v = V::new(2);
@@ -1075,11 +1098,21 @@ fn modes<F: FnMut(&mut V)>(mut f: F) {
         let mut v = V::new(m);
         f(&mut v);
     }
+    // thorough tier: every pair of fields at their maximum together (interactions between two fields)
+    if fields < 1000 && fields <= if TWO_HOT_ON.with(|t| t.get()) { 220 } else { 70 } {
+        for a in 0..fields {
+            for b in a + 1..fields {
+                let mut v = V::new(TWO_HOT + a * 1000 + b);
+                f(&mut v);
+            }
+        }
+    }
 }
 
 pub fn all_cases(tier: Tier) -> Vec<Box<dyn BoxCase>> {
     let th = tier == Tier::Thorough;
-    let lmax = if th { 4 } else { 3 };
+    TWO_HOT_ON.with(|t| t.set(th));
+    let lmax = if th { 5 } else { 3 };
     let mut out: Vec<Box<dyn BoxCase>> = vec![];
     macro_rules! add {
         ($name:literal, $shape:expr, $gen:expr) => {{
